@@ -259,11 +259,14 @@ func (s *streamGRPC) SendHeader(md metadata.MD) error {
 	if s.messageEncoding != "" {
 		h.Set("Grpc-Encoding", s.messageEncoding)
 	}
+	setOutgoingHeader(h, s.header)
+
+	// Announced after the handler's metadata: a metadata key named
+	// "trailer" must not replace the announcement, or net/http drops the
+	// status.
 	h.Add("Trailer", "Grpc-Status")
 	h.Add("Trailer", "Grpc-Message")
 	h.Add("Trailer", "Grpc-Status-Details-Bin")
-
-	setOutgoingHeader(h, s.header)
 
 	// don't write the header code, wait for the body.
 	s.sentHeader = true
